@@ -20,6 +20,16 @@ CLAIMS = {
             "MIR operation inventory + path-condition (guard-dominates) analysis"),
 }
 
+CLAIMS["C03"] = (
+    "decides the crash and wedge clauses structurally: (a) complete inventory of panic-capable "
+    "constructs (MIR asserts, diverging calls, calls into std API documented to panic) over every "
+    "function of the lib crate, each discharged by a re-checked guard or a reviewed row; (b) every "
+    "loop of the crate makes progress on every cycle (lexicographic measure argument, push-back "
+    "weighed by negative-cycle detection), scanners consume >= 1 character; (d) line-length guard "
+    "dominates lexer entry, recursion set reviewed; (e) VM errors become BASIC error states. Not "
+    "decided: native stack depth, UI protocol liveness.",
+    "panic-site inventory + loop-progress (ranking) analysis on MIR CFGs")
+
 NOT_APPLICABLE = {}
 
 
